@@ -563,6 +563,7 @@ def main():
         i += 1
     R = Runner(prop, tier, only, keep, jobs)
     def on_term(signum, frame):      # a check that is stopped from outside must not leave solver processes behind (they run in their own sessions)
+        for sg in (signal.SIGTERM, signal.SIGINT, signal.SIGHUP): signal.signal(sg, signal.SIG_IGN)      # not re-entrant: a second signal during cleanup is ignored
         R.abort = True
         got = R.run_lock.acquire(timeout=2)
         for pid in list(R.running):
